@@ -136,8 +136,8 @@ func LoadModule(rel, tags, goarch string) (*Module, error) {
 					continue
 				}
 				key := funcKey(p.Name, fd)
-				if fd.Name.Name == "init" || fd.Name.Name == "_" {
-					continue
+				if (fd.Name.Name == "init" && fd.Recv == nil) || fd.Name.Name == "_" {
+					continue // package initialisers (several per package, not callable); methods named init are ordinary functions
 				}
 				if _, dup := m.funcs[key]; dup {
 					// same key in two packages with the same name (kbin copies): qualify by path
